@@ -422,6 +422,14 @@ stream_winsort(struct stream *stream, struct ring *r)
 		return -1;
 	}
 
+	/* The events of an unsorted region that is never closed were not
+	 * sorted */
+	if (st == 'X') {
+		err("stream %s ends inside an unsorted region",
+				stream->relpath);
+		return -1;
+	}
+
 	if (empty_regions > 0)
 		warn("stream %s contains %zd empty sort regions",
 				stream->relpath, empty_regions);
